@@ -450,44 +450,5 @@ def chainRoot (len : Nat) (last : Str) : Mapping :=
   ⟨(List.range len).map (fun i => (.str ("k".toList ++ natStr i),
       .str ("${k".toList ++ natStr (i+1) ++ "}".toList))) ++ [(.str ("k".toList ++ natStr len), .str last)], [], []⟩
 
--- parse hypotheses are dischargeable for concrete names
-example : Token.parse "${a}".toList = .ok (some (.ref [.lit "a".toList])) := by rfl
-example : Token.parse "${foo_bar}".toList = .ok (some (.ref [.lit "foo_bar".toList])) := by rfl
-
--- the three cycle theorems apply to concrete roots
-example (st : RState) (hd : st.depth + 2 ≤ maxDepth) (n : Nat) (hn : 10 ≤ n) :
-    interp n ⟨[(.str "x".toList, .num (.int 1)), (.str "a".toList, .str "${a}".toList)], [], []⟩
-      (.str "${a}".toList) st = .error .loop :=
-  self_ref_is_loop _ "a".toList _ st (by rfl) (by decide) (by rfl) hd n hn
-
-example (n : Nat) (hn : 14 ≤ n) :
-    interp n ⟨[(.str "a".toList, .str "${b}".toList), (.str "b".toList, .str "${a}".toList)], [], []⟩
-      (.str "${b}".toList) {} = .error .loop :=
-  two_cycle_is_loop _ "a".toList "b".toList _ _ {} (by rfl) (by rfl) (by decide) (by decide)
-    (by rfl) (by rfl) (by decide) n hn
-
--- whole-program runs
-example : renderParamsF 50 ⟨[(.str "a".toList, .str "${a}".toList)], [], []⟩ = .error .loop := by rfl
-example : renderParamsF 50 ⟨[(.str "a".toList, .str "${b}".toList),
-    (.str "b".toList, .str "${a}".toList)], [], []⟩ = .error .loop := by rfl
-example : renderParamsF 50 ⟨[(.str "a".toList, .str "${b}".toList), (.str "b".toList, .str "${c}".toList),
-    (.str "c".toList, .str "x-${a}".toList)], [], []⟩ = .error .loop := by rfl
--- a cycle through a nested path and an embedded reference
-example : renderParamsF 50 ⟨[(.str "a".toList, .map [(.str "b".toList, .str "pre ${c} post".toList)] [] []),
-    (.str "c".toList, .str "${a:b}".toList)], [], []⟩ = .error .loop := by rfl
-
--- the same reference many times, and a diamond (`top → l, r → base`), render fine
-example : renderParamsF 50 ⟨[(.str "a".toList, .str "x".toList),
-    (.str "b".toList, .seq [.str "${a}".toList, .str "${a}".toList, .str "${a}".toList]),
-    (.str "c".toList, .str "${a}${a}-${a}".toList)], [], []⟩ =
-    .ok ⟨[(.str "a".toList, .lit "x".toList),
-      (.str "b".toList, .seq [.lit "x".toList, .lit "x".toList, .lit "x".toList]),
-      (.str "c".toList, .lit "xx-x".toList)], [], []⟩ := by rfl
-example : renderParamsF 50 ⟨[(.str "top".toList, .str "${l}+${r}".toList),
-    (.str "l".toList, .str "${base}".toList), (.str "r".toList, .str "${base}".toList),
-    (.str "base".toList, .str "v".toList)], [], []⟩ =
-    .ok ⟨[(.str "top".toList, .lit "v+v".toList), (.str "l".toList, .lit "v".toList),
-      (.str "r".toList, .lit "v".toList), (.str "base".toList, .lit "v".toList)], [], []⟩ := by rfl
-
 end C08
 end Reclass
